@@ -4,9 +4,10 @@ Keys are atoms, contents and names are naturals; the driver's digest is the iden
 content ids (the harness canonicalises real digests to content ids, the digest *format* is
 checked by the monitor on the real files, not here), the empty file is content 0.
 
-  (run <op> ...)   with <op> = (upd <key> <content> <budget>) | (del <key>) | (purge (<name> ...))
-      → ((stage <content> ...) (store (<name> <content>) ...) (prime (<key> <name>) ...) (flags T|F|N ...))
-  (program)        → the regenerated micro-step program, one atom/list per step
+  (run <xfs T|F> <op> ...)   with <op> = (upd <key> <content> <budget>) | (del <key>) | (purge (<name> ...))
+      → ((stage <content> ...) (incoming <content> ...) (store (<name> <content>) ...)
+         (prime (<key> <name>) ...) (flags T|F|N ...))
+  (program <xfs T|F>)  → the regenerated program expanded for the configuration: (<branch N|T|F> <step> ..) ...
 -/
 import DawgieVerif.Model.Sexp
 import DawgieVerif.Model.Blob
@@ -30,37 +31,55 @@ def ofFlag : Option Bool → Sx
   | none => Sx.atom "N"
   | some b => Sx.ofBool b
 
-def ofAct : Act → Sx
-  | .unlink => Sx.atom "unlink"
-  | .rename => Sx.atom "rename"
-  | .keep => Sx.atom "keep"
+def ofDst : Dst → String
+  | .incoming => "incoming"
+  | .store => "store"
 
+def ofAct : Act → String
+  | .unlink => "unlink"
+  | .mkdirs => "mkdirs"
+  | .move d => "move:" ++ ofDst d
+  | .replace => "replace"
+  | .rename d => "rename:" ++ ofDst d
+  | .create d => "create:" ++ ofDst d
+  | .torn d => "torn:" ++ ofDst d
+  | .fill d => "fill:" ++ ofDst d
+  | .dropSrc => "dropSrc"
+
+/-- `(<branch N|T|F> <step>)` -/
 def ofInstr : Instr → Sx
-  | .mkstemp => Sx.atom "mkstemp"
-  | .dump => Sx.atom "dump"
-  | .digest => Sx.atom "digest"
-  | .probe => Sx.atom "probe"
-  | .place a b => Sx.list [Sx.atom "place", ofAct a, ofAct b]
-  | .record .moved => Sx.list [Sx.atom "record", Sx.atom "moved"]
-  | .record .requested => Sx.list [Sx.atom "record", Sx.atom "requested"]
-  | .reply n => Sx.list [Sx.atom "reply", Sx.ofBool n]
-  | .flag n => Sx.list [Sx.atom "flag", Sx.ofBool n]
+  | .mkstemp => Sx.list [Sx.atom "N", Sx.atom "mkstemp"]
+  | .dump => Sx.list [Sx.atom "N", Sx.atom "dump"]
+  | .digest => Sx.list [Sx.atom "N", Sx.atom "digest"]
+  | .probe => Sx.list [Sx.atom "N", Sx.atom "probe"]
+  | .act g a => Sx.list [ofFlag g, Sx.atom (ofAct a)]
+  | .record .moved => Sx.list [Sx.atom "N", Sx.atom "record", Sx.atom "moved"]
+  | .record .requested => Sx.list [Sx.atom "N", Sx.atom "record", Sx.atom "requested"]
+  | .reply n => Sx.list [Sx.atom "N", Sx.atom "reply", Sx.ofBool n]
+  | .flag n => Sx.list [Sx.atom "N", Sx.atom "flag", Sx.ofBool n]
 
 def ofSt (s : St String Nat Nat) (fl : List (Option Bool)) : Sx :=
   Sx.list [
     Sx.list (Sx.atom "stage" :: s.stage.map (fun p => Sx.ofNat p.2)),
+    Sx.list (Sx.atom "incoming" :: s.incoming.map (fun p => Sx.ofNat p.2)),
     Sx.list (Sx.atom "store" :: s.store.map (fun p => Sx.list [Sx.ofNat p.1, Sx.ofNat p.2])),
     Sx.list (Sx.atom "prime" :: s.prime.map (fun p => Sx.list [Sx.atom p.1, Sx.ofNat p.2])),
     Sx.list (Sx.atom "flags" :: fl.map ofFlag)]
 
+/-- digest = identity on content ids, empty file = 0, a partial copy of `c` = 500000 + c -/
+def cfgOf (xfs : Bool) : Cfg Nat Nat := ⟨fun c => c, 0, fun c => 500000 + c, xfs⟩
+
 def handle : List Sx → Sx
-  | Sx.atom "run" :: ops =>
-    match ops.mapM op? with
-    | some os =>
-      let r := run (fun c : Nat => c) 0 Generated.Blob.program (init : St String Nat Nat) os
+  | Sx.atom "run" :: x :: ops =>
+    match x.bool?, ops.mapM op? with
+    | some xfs, some os =>
+      let r := run (cfgOf xfs) Generated.Blob.program (init : St String Nat Nat) os
       ofSt r.1 r.2
-    | none => Sx.err "blob-op"
-  | [Sx.atom "program"] => Sx.list (Generated.Blob.program.map ofInstr)
+    | _, _ => Sx.err "blob-op"
+  | [Sx.atom "program", x] =>
+    match x.bool? with
+    | some xfs => Sx.list ((expand xfs Generated.Blob.program).map ofInstr)
+    | none => Sx.err "blob-cfg"
   | _ => Sx.err "blob-cmd"
 
 end DawgieVerif.Blob
